@@ -180,7 +180,8 @@ def probe_runs(ctx, r, quick):
             ctx.broken.append({"probe_build_failed": err})
             ctx.violation({"kind": "probe-build-failed", "threaded": threaded}, {"error": err}, no_input=True)
             continue
-        for wi in range(5 if quick else 14):
+        nw = 5 if quick else 14
+        for wi in range(nw + (2 if threaded else 0)):
             kind = ["small", "mixed", "large"][wi % 3]
             items, _ = workload(r, kind)
             items = [(min(sz, 8 << 20), al) for sz, al in items[:40]]
@@ -194,8 +195,15 @@ def probe_runs(ctx, r, quick):
                 kind, foreign, order = "large+foreign", 4 << 20, 0
                 items = [(3000000, 8), (2500000, 16)] if wi % 2 == 0 else [(2200000, 4096), (5 << 20, 8)]
                 rounds = 60 if quick else 400
+            reps = 1
+            if wi >= nw:
+                # contention: many threads hammering the global allocator with the same few sizes, so that every path of the
+                # GlobalAlloc glue that depends on WHO holds the allocator lock is taken all the time
+                kind, foreign, order = "contended", 0, wi % 2
+                items = [(16384, 8)] if wi == nw else [(16384, 8), (48, 8), (700, 16), (16384, 64)]
+                threads, rounds, reps = 12, (6 if quick else 12), (5000 if quick else 60000) // len(items)
             script = ("".join("b %d %d\n" % it for it in items) +
-                      "order %d\nrounds %d\nthreads %d\nforeign %d\ngo\n" % (order, rounds, threads, foreign))
+                      "order %d\nrounds %d\nthreads %d\nreps %d\nforeign %d\ngo\n" % (order, rounds, threads, reps, foreign))
             p = None
             for attempt in range(2):       # a hang is retried once (seen once, with a thread/join state another check owns)
                 try:
@@ -209,7 +217,7 @@ def probe_runs(ctx, r, quick):
                               {"why": "the no-libc probe did not finish twice in a row", "script": script,
                                "how_to_replay": "feed `script` on stdin to " + exe})
                 continue
-            ctx.evaluations += rounds
+            ctx.evaluations += rounds * reps * (threads if reps > 1 else 1)
             lines = [l.split() for l in p.stdout.splitlines()]
             vm = [int(l[2]) * 4096 for l in lines if l and l[0] == "r" and len(l) == 4]
             bad = sum(int(l[3]) for l in lines if l and l[0] == "r" and len(l) == 4)
